@@ -651,6 +651,53 @@ fn stats_contract() {
     core::mem::forget(fs);
 }
 
+// @obl props=C03,C05 tier=quick fns=FileSystem::truncate_cluster_chain,FileSystem::free_cluster_chain,FileSystem::cluster_iter,FsInfoSector::map_free_clusters
+// @desc forall fs_info, FAT type fixture, start cluster, either operation, ClusterIterator::truncate / free replaced by their contracts (Verus unit table_iter): the chain operation is started at exactly the given cluster with the volume's FAT type; on success the cached free count grows by exactly the number of clusters the operation reports freed (an unknown count stays unknown) and the FS-info record is marked for write-back whenever the count changed; the allocation hint is untouched; on an error the cached record is unchanged
+#[kani::proof]
+#[kani::unwind(4)]
+#[kani::stub(crate::table::ClusterIterator::truncate, crate::table::verif_kani::stub_iter_truncate)]
+#[kani::stub(crate::table::ClusterIterator::free, crate::table::verif_kani::stub_iter_free)]
+fn chain_glue_counts() {
+    use crate::table::verif_kani::{G_ITER_CLUSTER, G_ITER_FREED, G_ITER_FT, G_ITER_OP};
+    let sel: u8 = kani::any();
+    kani::assume(sel < 3);
+    let bpb = sel_bpb(sel);
+    let total = bpb.total_clusters();
+    let info = any_fs_info();
+    let fs = mk_fs(NdDev::read_only(), bpb, info.clone(), any_flags(), opts(false, SymTime::any()));
+    let c: u32 = kani::any();
+    kani::assume(c >= 2 && c < total + 2);
+    let whole: bool = kani::any();
+    // (clusters reported freed were allocated before: count + freed <= total is the callee's postcondition on inv_count)
+    let freed: u32 = kani::any();
+    if let Some(n) = info.free_cluster_count {
+        kani::assume(n as u64 + freed as u64 <= total as u64);
+    }
+    unsafe { G_ITER_FREED = freed };
+    let r = if whole { fs.free_cluster_chain(c) } else { fs.truncate_cluster_chain(c) };
+    let now = fs.fs_info.borrow().clone();
+    let (ic, ift, op) = unsafe { (G_ITER_CLUSTER, G_ITER_FT, G_ITER_OP) };
+    assert!(ic == Some(c) && ift == Some(fs.fat_type()));
+    assert!(op == if whole { 2 } else { 1 });
+    match r {
+        Ok(()) => {
+            assert!(now.free_cluster_count == info.free_cluster_count.map(|n| n + freed));
+            if now.free_cluster_count != info.free_cluster_count {
+                assert!(now.dirty);
+            }
+            assert!(now.dirty || !info.dirty);
+        }
+        Err(_) => {
+            assert!(now.free_cluster_count == info.free_cluster_count && now.dirty == info.dirty);
+        }
+    }
+    assert!(now.next_free_cluster == info.next_free_cluster);
+    assert!(fs.disk.borrow().nlog == 0);
+    kani::cover!(r.is_ok() && whole && info.free_cluster_count.is_some() && freed == 3);
+    kani::cover!(r.is_err() && !whole);
+    core::mem::forget(fs);
+}
+
 // ------------------------------------------------------------------------------------------------
 // geometry for ALL validated volumes (C08, C10, C11, C20)
 // ------------------------------------------------------------------------------------------------
